@@ -232,7 +232,12 @@ def run(facts, tr, rep):
             recv = peel(tr.expand(tr.operand(dropb, c.args[0], c.loc)))
             if recv[0] == "field":
                 key_field = recv[2]
-    tr, dropb = tr_s, dropb_s
+    dropb = dropb_s
+    # the completion protocol of `poll` is judged on its fully inlined body as well (a `publish(key, &result)` helper
+    # of the registry, a poll split into per-variant functions)
+    poll = ffacts_.bodies.get(poll.def_) or poll
+    gp = graph(poll)
+    inner_polls = [c for c in gp.calls() if c.def_ == "core::future::future::Future::poll" and c.self_kind in ("alias", "param", "dyn")]
     takes = [c for c in gp.calls() if c.name == "take" and "Option" in (c.path or "")]
     key_takes = []
     for c in takes:
